@@ -51,9 +51,14 @@ type obj struct {
 	id        byte
 	version   vatomic.Int32
 	scheduled vatomic.Bool
+	// optional user code of the object (runs inside the corresponding callback)
+	onWrite, onScheduled, onReset func()
 }
 
 func (o *obj) BatchWrite(m kvstore.BatchedMutations) {
+	if o.onWrite != nil {
+		o.onWrite()
+	}
 	v := o.version.Load()
 	if err := m.Set([]byte{o.id}, []byte{byte(v)}); err != nil {
 		panic(err)
@@ -61,8 +66,18 @@ func (o *obj) BatchWrite(m kvstore.BatchedMutations) {
 	vrt.Observe("bw", o.id, v)
 }
 func (o *obj) BatchWriteDone()           { vrt.Observe("done", o.id) }
-func (o *obj) BatchWriteScheduled() bool { return !o.scheduled.CompareAndSwap(false, true) }
-func (o *obj) ResetBatchWriteScheduled() { o.scheduled.Store(false) }
+func (o *obj) BatchWriteScheduled() bool {
+	if o.onScheduled != nil {
+		o.onScheduled()
+	}
+	return !o.scheduled.CompareAndSwap(false, true)
+}
+func (o *obj) ResetBatchWriteScheduled() {
+	if o.onReset != nil {
+		o.onReset()
+	}
+	o.scheduled.Store(false)
+}
 
 type env struct {
 	store kvstore.KVStore
@@ -237,6 +252,18 @@ func scenarios() []*sched.Scenario {
 			vrt.Quiesce()
 			e.check()
 		}})
+		// (B') the same race with the writer at rest (it has written the first object and waits for more): the producer
+		// losing the race must leave nothing behind that keeps the writer - and with it Stop - alive
+		out = append(out, &sched.Scenario{Name: "B-stop-vs-producer-writer-idle/" + cn, ThoroughOnly: c.thor, EnvBudget: 1, Run: func() {
+			e := newEnv(c.q, c.b)
+			e.enqueue(1)
+			vrt.Settle()
+			p := vrt.Spawn(func() { e.enqueue(2) })
+			e.stop()
+			p.Join()
+			vrt.Quiesce()
+			e.check()
+		}})
 		// (C) two concurrent Stop callers
 		out = append(out, &sched.Scenario{Name: "C-two-stops/" + cn, ThoroughOnly: c.thor || c.q != 1, EnvBudget: 1, Run: func() {
 			e := newEnv(c.q, c.b)
@@ -277,6 +304,31 @@ func scenarios() []*sched.Scenario {
 			e.enqueue(2)
 			vrt.Quiesce()
 		}})
+	// a directed four-party schedule (slow object callbacks are user code and may take any time): the writer is busy
+	// inside BatchWrite of object 1 while a Flush is requested; a producer of object 2 passes the first running check,
+	// Stop is invoked, the producer announces its object, notices the stop and withdraws - and exactly then the writer
+	// gets to the pending flush. Nobody may wait for the withdrawn object: Stop returns and object 1 is written and done.
+	out = append(out, &sched.Scenario{Name: "D-flush-pending-while-producer-withdraws/q1b2", EnvBudget: 1, QuickMaxBound: 1, Run: func() {
+		e := newEnv(1, 2)
+		gate := make(chan struct{})
+		var stopper vrt.Handle
+		e.objs[1].onWrite = func() { vrt.Recv(gate) }
+		e.objs[2].onScheduled = func() {
+			stopper = vrt.Spawn(e.stop)
+			vrt.Settle() // Stop has switched the writer off and waits for it
+		}
+		e.objs[2].onReset = func() {
+			vrt.Close(gate)
+			vrt.Settle() // the writer finishes object 1 and serves the flush request while object 2 is still announced
+		}
+		e.enqueue(1)
+		vrt.Settle() // the writer is inside BatchWrite(1)
+		e.bw.Flush()
+		e.enqueue(2)
+		stopper.Join()
+		vrt.Quiesce()
+		e.check()
+	}})
 	// a zero batch time-out is legal (the timer fires at once): a batch that is not full must still be committed and
 	// Stop must still return
 	out = append(out, &sched.Scenario{Name: "A-producers-then-stop/q1b8-timeout0", EnvBudget: 2, QuickMaxBound: 2, Run: func() {
